@@ -132,9 +132,21 @@ func NewRTUClient() *Client {
 // NewRTUClientWithConfig creates new instance of Modbus Client for Modbus RTU protocol with given configuration options
 func NewRTUClientWithConfig(conf ClientConfig) *Client {
 	client := defaultClient(conf)
-	client.asProtocolErrorFunc = packet.AsRTUErrorPacket
+	client.asProtocolErrorFunc = asRTUErrorPacketWithCRC
 	client.parseResponseFunc = packet.ParseRTUResponseWithCRC
 	return client
+}
+
+// asRTUErrorPacketWithCRC converts raw packet bytes to Modbus RTU error response only when packet CRC is valid.
+// Received bytes with invalid CRC can not be trusted to be an error response sent by the server.
+func asRTUErrorPacketWithCRC(data []byte) error {
+	if len(data) != 5 {
+		return nil
+	}
+	if packet.CRC16(data[:3]) != uint16(data[3])|uint16(data[4])<<8 {
+		return nil
+	}
+	return packet.AsRTUErrorPacket(data)
 }
 
 // NewClient creates new instance of Modbus Client with given configuration options
